@@ -207,6 +207,28 @@ pub fn run(tier: &str) -> Result<Report, String> {
             rep.violations.extend(bad.into_iter().take(20));
         }
     }
+    // "all graphs with k >= nesting depth spare variable sets": the number of spare variables may differ from network
+    // variable to network variable (SymbolicContext::with_extra_state_variables takes a per-variable map); raw and sanitised
+    // results must equal those on the uniform graph with the minimal count
+    {
+        let mut n_non = 0u64;
+        for b in nets.iter().filter(|b| b.n >= 2 && which.contains(&b.name)) {
+            let nm = crate::formulas::Names::user(&[b.spec.vars[0].clone(), b.spec.vars[b.n - 1].clone()]);
+            let mut fs = Gen::new(Alphabet::plain(2, 2)).closed_up_to(3);
+            fs.extend(templates(&nm, false, if tier == "quick" { 2 } else { 5 }));
+            let texts: Vec<String> = fs.iter().map(|f| f.show(&nm)).collect();
+            let depth = |t: &str| crate::refparser::parse_str(t, false).map(|x| x.qdepth()).unwrap_or(99);
+            n_non += texts.len() as u64;
+            for w in nonuniform_check(b, &texts, &depth) {
+                if w.starts_with("harness:") {
+                    return Err(w);
+                }
+                rep.violations.push(Violation { case: json!({"kind": "none"}), what: format!("on {}: {w}", b.name), size: 30 });
+            }
+        }
+        rep.evaluations += n_non * 4 * 7;
+        rep.add_count("formulae_x_networks_on_graphs_with_per_variable_spare_counts", n_non);
+    }
     // the multi-formula entry points: every ordered pair and triple of a pool of formulae of
     // different heights: sanitised[i] must equal raw[i] (and the oracle) position by position
     {
